@@ -220,8 +220,9 @@ def chunk {α} (k : Nat) : Nat → List α → List (List α)
   | 0, _ => []
   | fuel + 1, l => if l.isEmpty ∨ k = 0 then [] else l.take k :: chunk k fuel (l.drop k)
 
-/-- horizontal differencing of one row of `columns * colors` samples of `bpc` bits (pad bits kept) -/
-def tiffRow (columns colors bpc : Nat) (row : List Nat) : List Nat :=
+/-- horizontal differencing of one row of `columns * colors` samples of `bpc` bits (pad bits kept);
+general form on the bit string -/
+def tiffRowBits (columns colors bpc : Nat) (row : List Nat) : List Nat :=
   let bits := row.flatMap byteBits
   let nS := columns * colors
   let samples := ((chunk bpc (nS + 1) (bits.take (nS * bpc))).map bitsToByte).toArray
@@ -230,6 +231,13 @@ def tiffRow (columns colors bpc : Nat) (row : List Nat) : List Nat :=
     else (samples.getD j 0 + 2 ^ bpc - samples.getD (j - colors) 0) % 2 ^ bpc
   let outBits := diff.flatMap (codeBits bpc) ++ bits.drop (nS * bpc)
   (chunk 8 (row.length + 1) outBits).map bitsToByte
+
+/-- TIFF 6.0 §14.  With 8 bits per component a sample is a byte and "the difference to the same
+component of the pixel to the left" is written directly on the bytes (this is the recurrence of the
+PNG Sub filter with a stride of `colors` bytes); other depths use the bit-string form.  (The Rust twin
+`tiff2_encode` uses one sample-based loop for all depths; the driver compares the two.) -/
+def tiffRow (columns colors bpc : Nat) (row : List Nat) : List Nat :=
+  if bpc = 8 then filterRow 1 colors [] row else tiffRowBits columns colors bpc row
 
 def tiffEnc (columns colors bpc : Nat) (data : List Nat) : List Nat :=
   let rb := rowBytes columns colors bpc
